@@ -190,7 +190,15 @@ def gen_tree(rng, incl_pool):
         files[p] = f"module umod{k}\n  integer :: v{k}\nend module umod{k}\n"
     if not files:
         files[ROOT + "/only.f90"] = "module umod0\nend module umod0\n"
-    return dirs, files
+    links = {}
+    if rng.random() < 0.25:
+        # entries that are neither files nor directories: a symlink to itself and a dangling one
+        for nm, target in (("loop.f90", "loop.f90"), ("aaa_loop.F", "aaa_loop.F"), ("dangling.f90", "nowhere.f90")):
+            if rng.random() < 0.6:
+                d = rng.choice(dirs)
+                if d + "/" + nm not in files:
+                    links[d + "/" + nm] = target
+    return dirs, files, links
 
 
 def gen_cfg(rng, dirs, files, incl_pool):
@@ -260,10 +268,12 @@ def channelise(rng, cfg):
 def gen_sched(g):
     rng = base.rng_for(g)
     incl_pool = [".inc", "inc", ".FYP", ".h", ".fypp"]
-    dirs, files = gen_tree(rng, incl_pool)
+    dirs, files, links = gen_tree(rng, incl_pool)
     cfg = gen_cfg(rng, dirs, files, incl_pool)
     argv, filecfg = channelise(rng, cfg)
     tree = dict(files)
+    for lp, target in links.items():
+        tree[lp] = {"symlink": target}
     for d in dirs:
         if d != ROOT:
             tree[d + "/"] = ""
